@@ -3,6 +3,7 @@ package object
 import (
 	"bytes"
 	"fmt"
+	"sort"
 	"strings"
 )
 
@@ -22,7 +23,10 @@ func (o *Obj) String() string {
 	idx := 0
 	last := len(o.Pairs) - 1
 
-	for key, pair := range o.Pairs {
+	// keys are sorted, otherwise the output would change from run to run
+	for _, key := range o.sortedKeys() {
+		pair := o.Pairs[key]
+
 		out.WriteString(key + ": " + pair.String())
 
 		if idx != last {
@@ -48,7 +52,9 @@ func (o *Obj) Dump(ident int) string {
 
 	insideSpaces := strings.Repeat("  ", ident)
 
-	for key, pair := range o.Pairs {
+	for _, key := range o.sortedKeys() {
+		pair := o.Pairs[key]
+
 		out.WriteString(insideSpaces)
 		out.WriteString(`<span class="textwire-prop">"` + key + `"</span>`)
 		out.WriteString(": ")
@@ -59,6 +65,19 @@ func (o *Obj) Dump(ident int) string {
 	out.WriteString(spaces + "<span class='textwire-brace'>}</span>")
 
 	return out.String()
+}
+
+// sortedKeys returns the property names in alphabetical order
+func (o *Obj) sortedKeys() []string {
+	keys := make([]string, 0, len(o.Pairs))
+
+	for key := range o.Pairs {
+		keys = append(keys, key)
+	}
+
+	sort.Strings(keys)
+
+	return keys
 }
 
 func (o *Obj) Val() any {
